@@ -485,7 +485,59 @@ def rule_sweep(ctx, repo):
               "state matrix rebuilt from stale Jacobians during a sweep " + wit, f.W())
 
 
+def rule_fresh(ctx, repo):
+    """The state matrix is built from dae.fx/fy/gx/gy: on every path from the entry of EIG.run to calc_As the Jacobians are
+    re-evaluated at the current point (a call that reaches System.j_update) -- also when the time-domain routine is already
+    initialised (parameters may have been altered, a simulation may have moved the operating point)."""
+    from engine.effects import Effects
+    E = Effects(repo)
+    run = F.method(repo, "EIG", "run", EIG)
+    pc = F.method(repo, "EIG", "_pre_check", EIG)
+    cas = run.calls("self.calc_As")
+    if not cas:
+        raise AnalysisError("EIG.run: calc_As call vanished")
+
+    def evaluators(f):
+        out = []
+        for n in f.g.nodes():
+            a = f.g.data(n).get("ast")
+            if a is None or f.g.data(n)["kind"] not in ("stmt", "test"):
+                continue
+            expr = a.test if f.g.data(n)["kind"] == "test" and hasattr(a, "test") else a
+            for c in [x for x in ast.walk(expr) if isinstance(x, ast.Call)]:
+                if dotted(c.func) == "self._pre_check":
+                    continue            # analysed path by path below
+                if E.call_reaches(f.ci, f.fn, c, {"System.j_update"}):
+                    out.append(n)
+                    break
+        return out
+    ev_run = evaluators(run)
+    ok_run, _ = run.g.must_pass(run.g.entry, cas[0], ev_run) if ev_run else (False, None)
+    # the evaluation may sit in _pre_check: then every path through _pre_check that returns a true status passes one
+    ev_pc = evaluators(pc)
+    pcs = run.calls("self._pre_check")
+    ok_pc = False
+    wit = ""
+    if pcs and ev_pc:
+        rets = [r for r in pc.returns() if not (isinstance(pc.g.data(r)["ast"].value, ast.Constant) and pc.g.data(r)["ast"].value.value is False)]
+        ok_pc = True
+        # a path that sets the returned status to False is a refusal, not a way into calc_As
+        refuse = [n for n in pc.g.nodes() if pc.g.data(n)["kind"] == "stmt" and isinstance(pc.g.data(n)["ast"], ast.Assign)
+                  and isinstance(pc.g.data(n)["ast"].value, ast.Constant) and pc.g.data(n)["ast"].value.value is False
+                  and any(isinstance(pc.g.data(r)["ast"].value, ast.Name) and pc.g.data(r)["ast"].value.id == dotted(pc.g.data(n)["ast"].targets[0])
+                          for r in rets)]
+        for r in rets:
+            good, p = pc.g.must_pass(pc.g.entry, r, ev_pc + refuse)
+            if not good:
+                ok_pc = False
+                wit = pc.g.fmt_path(p)
+    ctx.check(ok_run or ok_pc, "C08.fresh", "EIG.run/jacobian", "Jacobians re-evaluated (a call reaching System.j_update) on every path to calc_As",
+              "calc_As can be reached without re-evaluating the Jacobians: path %s of _pre_check (time-domain routine already initialised) "
+              "-- after an alter() or a simulation the state matrix is built from stale fx/fy/gx/gy" % wit, pc.W())
+
+
 def run(ctx):
+    ctx.rule("C08.fresh", "effect/call-graph: the Jacobians are re-evaluated on every path from EIG.run to calc_As", 1)
     ctx.rule("C08.partition", "the three sign-count predicates are pairwise disjoint and exhaustive over all order types of "
              "Re(mu) relative to -tol < 0 < tol", 1)
     ctx.rule("C08.formula", "symbolic execution of _reduce in a non-commutative algebra: result == diag(1/T')(fx - fy gy^-1 gx); "
@@ -505,3 +557,4 @@ def run(ctx):
     rule_axes(ctx, repo)
     rule_run(ctx, repo)
     rule_sweep(ctx, repo)
+    rule_fresh(ctx, repo)
